@@ -351,6 +351,20 @@ func c20Watcher(c *Ctx) {
 					if call, ok := x.X.(*ssa.Call); ok && call.Call.IsInvoke() && call.Call.Method.Name() == "Err" && !deadline {
 						problems = append(problems, "ctx.Err() is reported without first interrupting the connection's I/O (SetDeadline in the past)")
 					}
+					// what Dial returns for an ended context is the context's own error: the only values
+					// the watcher may publish are nil and ctx.Err()
+					switch v := x.X.(type) {
+					case *ssa.Const:
+						if !v.IsNil() {
+							problems = append(problems, "the watcher publishes a constant that is not nil")
+						}
+					case *ssa.Call:
+						if !(v.Call.IsInvoke() && v.Call.Method.Name() == "Err" && v.Call.Method.Pkg() != nil && v.Call.Method.Pkg().Path() == "context") {
+							problems = append(problems, "the watcher publishes "+v.Call.Value.String()+"(...) where the context's own error ctx.Err() belongs (Dial's error for an ended context must be the context's error)")
+						}
+					default:
+						problems = append(problems, "the watcher publishes "+x.X.String()+", neither nil nor ctx.Err()")
+					}
 				case *ssa.Call:
 					if x.Call.IsInvoke() && x.Call.Method.Name() == "SetDeadline" {
 						deadline = true
